@@ -30,6 +30,8 @@ def dispatch (line : String) : String :=
     else if op = "ecache" then opEcache args
     else if op = "dialog" then opDialog args
     else if op = "conc" then opConc args
+    else if op = "procuci" then opConc args
+    else if op = "perftbin" then (match args with | [h, d, _] => opPerft [h, d] | _ => "bad-op")
     else if op = "search" then opSearch args
     else if op = "judge" then opJudge args
     else if op = "deep" then "m.goonly=1"
